@@ -1,5 +1,5 @@
 """Property -> rule instances (DESIGN section 4). Each entry is a function facts -> [RuleResult]."""
-from . import dim, atomic, tag, pair, canon, deleg, guard, table, wire, flow, sibling, algo_rules, rules5
+from . import dim, atomic, tag, pair, canon, deleg, guard, table, wire, flow, sibling, algo_rules, rules5, rules6
 
 ALGO_FILES = {
     "C09": ("src/algo/mod.rs",),
@@ -427,6 +427,7 @@ _R5 = [
     (("C03",), rules5.graphmap_incoming_mirror, 1, None, "no GraphMap method pushes an Incoming adjacency entry without a != b"),
     (("C17", "C03"), rules5.nodes_before_edges, 3, None, "GraphMap::from_graph inserts all nodes (in node order) before any edge"),
     (("C11",), rules5.float_overflow_table, 2, None, "float overflowing_add never reports overflow for operands of opposite sign (sign table)"),
+    (("C04", "C06"), rules5.matrix_edges_table, 4, None, "MatrixGraph Edges::next yields (row, column) of the cell read in both scan directions; Neighbors::next yields the scanned coordinate"),
     (("C05",), rules5.search_contract, 1, None, "Csr::find_edge_pos returns Ok exactly when an inspected element compares Equal (search table over comparison outcomes)"),
 ]
 for _pids, _fn, _floor, _predf, _txt in _R5:
@@ -434,6 +435,33 @@ for _pids, _fn, _floor, _predf, _txt in _R5:
         _fl = _floor[_pid] if isinstance(_floor, dict) else _floor
         _pr = _predf(_pid) if _predf else (lambda f, s: True)
         PROPS[_pid]["rules"].append(sub(_cached("r5." + _fn.__name__, _fn), _pr, _fl))
+        if _pid != "C07":
+            PROPS[_pid]["decides"] += "; " + _txt
+
+PROPS["C06"]["rules"].append(sub(_vmap, lambda f, s: "FixedBitSet" in f or "FixedBitSet" in s, 3))
+PROPS["C06"]["decides"] += "; a FixedBitSet used as a node filter answers from membership alone (VisitMap table with free comparisons)"
+# ---- round 6 (rules6)
+_R6 = [
+    (("C01", "C02"), rules6.who_grows, {"C01": 2, "C02": 2}, lambda pid: (lambda f, s: "stable_graph" not in f) if pid == "C01" else (lambda f, s: "stable_graph" in f),
+     "Graph's slot vectors are lengthened only inside the functions that carry the index-type limit test"),
+    (("C02",), rules6.index_directed_creation, 2, None, "ensure_node_exists never allocates through the free list (add_node)"),
+    (("C04", "C06"), rules6.matrix_cell_bounds, 3, None, "MatrixGraph Edges::next reads a cell only with both coordinates below node_capacity"),
+    (("C05",), rules6.list_search_direction, 2, None, "adj::List find_edge / update_edge both pick the first match of a forward scan"),
+    (("C06",), rules6.reversed_one_to_one, 2, None, "Reversed's iterators map the inner iterator one to one"),
+    (("C09", "C07"), rules6.condensation_simple, 2, None, "condensation uses add_edge only when make_acyclic is false"),
+    (("C10", "C07"), rules6.entry_arms, 3, None, "both arms of a score-table entry store the same quantity"),
+    (("C11", "C07"), rules6.negcheck_unfiltered, 3, None, "bellman_ford's relaxation test is not filtered by an endpoint comparison"),
+    (("C14",), rules6.scratch_grow_guard, 3, None, "causal_cones grows its scratch sets under len() < node_bound() only"),
+    (("C15", "C07"), rules6.label_reset_whole, 2, None, "maximum_matching resets the whole label vector (dummy slot included)"),
+    (("C16", "C07"), rules6.ap_no_disc_zero, 1, None, "articulation_points never branches on a discovery time compared with a constant"),
+    (("C18",), rules6.graph6_ids, 2, None, "the graph6 encoder queries is_adjacent with ids yielded by node_identifiers()"),
+    (("C20",), rules6.closure_index_type, 2, None, "steiner_tree's metric-closure graph has a concrete index type"),
+]
+for _pids, _fn, _floor, _predf, _txt in _R6:
+    for _pid in _pids:
+        _fl = _floor[_pid] if isinstance(_floor, dict) else _floor
+        _pr = _predf(_pid) if _predf else (lambda f, s: True)
+        PROPS[_pid]["rules"].append(sub(_cached("r6." + _fn.__name__, _fn), _pr, _fl))
         if _pid != "C07":
             PROPS[_pid]["decides"] += "; " + _txt
 
